@@ -266,6 +266,54 @@ def link_conversions(run):
   run.aux["conversions_enumerated"] = n
 
 
+def pipeline_part(run):
+  """the multiplier entries of the real QTools data-type map (legacy Keras attributes stubbed): for every weight layer of four real
+  models, every product of an input-type value and a weight-type value - except most-negative x most-negative - is a value of the
+  reported multiplier type"""
+  from .. import legacy_keras, layers
+  from . import c18
+  legacy_keras.install()
+  Q = layers.qk()
+  from qkeras.qtools import run_qtools
+  qi = mods()[2]
+  n = 0
+  for mname, mk, src in c18.map_models():
+    try:
+      model = mk()
+      qt = run_qtools.QTools(model, process="horowitz", source_quantizers=[Q.quantizers.get_quantizer(src)], is_inference=False, weights_path=None,
+                             keras_quantizer="fp32", keras_accumulator="fp32", for_reference=False)
+    except Exception as e:  # pylint: disable=broad-except
+      run.inconclusive_("QTools cannot process %s: %r" % (mname, e))
+      continue
+    for layer, item in qt._layer_map["layer_data_type_map"].items():
+      if not isinstance(item, dict) or item.get("multiplier") is None:
+        continue
+      xin, wq, mult = item["input_quantizer_list"][0], item["weight_quantizer"], item["multiplier"].output
+      kx, kw_ = c18.kind_of(xin), c18.kind_of(wq)
+      if "float" in (kx, kw_, c18.kind_of(mult)):
+        continue
+      vx, vw = operand_val(kx, xin, "x", qi), operand_val(kw_, wq, "w", qi)
+      mem, inb, okind = output_member(mult, vx.m * vw.m, vx.e + vw.e, qi)
+      neg = [z3.Not(mem), z3.Not(z3.And(vw.most_negative, vx.most_negative))]
+      if okind == "po2":
+        neg.append(vx.m * vw.m != 0)
+      meta = dict(clause="pipeline_product", model=mname, layer=layer.name, input=c18.tdesc(xin), weight=c18.tdesc(wq), multiplier=c18.tdesc(mult),
+                  impl=item["multiplier"].implemented_as())
+      v, mdl = harness.z3_query(run, "pipeline_%s_%s" % (mname, layer.name), [vx.member, vw.member, inb], neg, meta)
+      n += 1
+      if mdl is not None:
+        from fractions import Fraction
+        px = Fraction(mdl.get("m_x", 0)) * Fraction(2) ** int(mdl.get("e_x", -(int(xin.bits) - int(bool(xin.is_signed)) - int(xin.int_bits))) if kx.startswith("po2") else -(int(xin.bits) - int(bool(xin.is_signed)) - int(xin.int_bits)) if kx == "fixed" else 0)
+        pw = Fraction(mdl.get("m_w", 0)) * Fraction(2) ** int(mdl.get("e_w", 0) if kw_.startswith("po2") else -(int(wq.bits) - int(bool(wq.is_signed)) - int(wq.int_bits)) if kw_ == "fixed" else 0)
+        prod = px * pw
+        if not representable(mult, prod):
+          run.violation(dict(clause="pipeline_product", layer_class=type(layer).__name__), dict(meta, x=str(px), w=str(pw), product=str(prod)),
+                        dict(clause="pipeline", model=mname, layer=layer.name))
+        else:
+          run.inconclusive_("pipeline product counterexample for %s/%s does not reproduce (x=%s, w=%s)" % (mname, layer.name, px, pw))
+  run.aux["pipeline_layers"] = n
+
+
 def run(tier, seed):
   r = harness.Run(PROP, "model_checking", tier, seed)
   maxbits = 8 if tier == "quick" else 16
@@ -347,6 +395,12 @@ def run(tier, seed):
         s.pop()
         results.append(rec)
   link_conversions(r)
+  try:
+    pipeline_part(r)
+  except Exception as e:  # pylint: disable=broad-except
+    import traceback
+    traceback.print_exc()
+    r.inconclusive_("harness error in the pipeline part: %r" % (e,))
   r.aux["paths_explored"] = n_paths
   r.configs = ["%s*%s" % p for p in itertools.product(KINDS, KINDS)]
   r.samples = results[:6]
@@ -355,7 +409,9 @@ def run(tier, seed):
   r.bounds = ["fixed operands: bits 1..%d, int_bits 0..bits-sign, signedness - all symbolic; po2 operands: bits symbolic up to %d, max_value in %s" % (maxbits, po2bits, mvs),
               "operand value sets: fixed = two's-complement codes * 2^-frac; po2 = +-2^e with e in the interval the real get_exp() derives; "
               "ternary/binary literal sets.  Excluded: both operands at their most negative value; zero products into po2 output types",
-              "every feasible path of the constructors is explored (forks on symbolic conditions)"]
+              "every feasible path of the constructors is explored (forks on symbolic conditions)",
+              "pipeline: the multiplier entries that the real QTools data-type map reports for 9 weight layers of four real models (legacy Keras "
+              "attributes stubbed) - concrete types, symbolic operand codes, same exclusion"]
   r.assumptions = ["np.sqrt/np.log10 (gate-count estimates, irrelevant to the output type) are contract stubs",
                    "2**n is a finite table over the stated ranges (range violations are reported as path limits)"]
   r.trusted = ["z3 (NIA/LIA)", "vf.pysym proxies and shims (int/max/min/math.ceil/np.log2)", "vf.qtypes value-set semantics"]
